@@ -747,12 +747,280 @@ def apply_ops(w, t, inst, ops):
     return inst
 
 
+# ---- the text is parsed more than once: every parse must give the encoded instance ---------------------------------
+# (state an earlier parse leaves behind - a memo of decoded documents, a recycled container - must not reach a later one)
+SCRIBBLE = "†scribbled"
+
+
+def _mutables(x, out):
+    """every mutable container reachable from x, by identity (a Schema instance is a dict)"""
+    if isinstance(x, (list, set, tuple, frozenset)):
+        if isinstance(x, (list, set)):
+            if id(x) in out:
+                return
+            out[id(x)] = x
+        for y in list(x):
+            _mutables(y, out)
+    elif isinstance(x, dict):
+        if id(x) in out:
+            return
+        out[id(x)] = x
+        for y in list(dict.values(x)):
+            _mutables(y, out)
+
+
+def _scribble(x):
+    """in-place changes an owner of a freshly parsed object may make: append / add / item assignment on every list,
+    set and plain dict inside it (the instance's own items are left to the public API: C07)"""
+    from utype import Schema
+    objs = {}
+    _mutables(x, objs)
+    n = 0
+    for o in objs.values():
+        if isinstance(o, list):
+            if o and not isinstance(o[0], (list, dict, set)):
+                o[0] = SCRIBBLE
+            o.append(SCRIBBLE)
+            n += 1
+        elif isinstance(o, set):
+            o.add(SCRIBBLE)
+            n += 1
+        elif isinstance(o, dict) and not isinstance(o, Schema):
+            for k in list(o)[:1]:
+                if not isinstance(o[k], (list, dict, set)):
+                    o[k] = SCRIBBLE
+            o[SCRIBBLE] = SCRIBBLE
+            n += 1
+    return n
+
+
+def _eq(a, b):
+    try:
+        return bool(a == b) and bool(b == a)
+    except Exception:
+        return False
+
+
+def reparse(cls, raw, inst, first, snap, out):
+    """parse the same text again (equal, nothing mutable shared with the first result or the encoded instance),
+    change the first result in place, parse the text a third time (still equal; the encoded instance untouched)"""
+    try:
+        before = snap(inst)
+    except Exception as e:
+        out["again"] = "snap:" + type(e).__name__
+        return
+    try:
+        second = cls.__from__(raw)
+    except Exception as e:
+        out["again"] = "error:" + type(e).__name__
+        return
+    out["again"] = "ok"
+    out["again_equal"] = _eq(second, inst)
+    a, b, c = {}, {}, {}
+    _mutables(first, a)
+    _mutables(second, b)
+    _mutables(inst, c)
+    out["shared"] = sorted({type(a[i]).__name__ for i in a if i in b or i in c} | {type(b[i]).__name__ for i in b if i in c})
+    out["scribbled"] = _scribble(first)
+    try:
+        third = cls.__from__(raw)
+    except Exception as e:
+        out["third"] = "error:" + type(e).__name__
+        return
+    out["third"] = "ok"
+    out["third_equal"] = _eq(third, inst)
+    try:
+        out["inst_intact"] = snap(inst) == before
+        out["third_same"] = snap(third) == before if out.get("strict_snap") else None
+    except Exception as e:
+        out["inst_intact"] = "snap:" + type(e).__name__
+
+
+def reparse_spec(io):
+    if io.get("again") is None:
+        return None
+    if io["again"] != "ok":
+        return f"parsing the same encoded text a second time failed: {io['again']}"
+    if not io.get("again_equal"):
+        return "the second parse of the same encoded text is not equal to the encoded instance"
+    if io.get("shared"):
+        return f"two parses of the same text (or a parse and the encoded instance) share a mutable object: {io['shared']}"
+    if io.get("third") != "ok":
+        return f"parsing the same text again after the first result was changed in place failed: {io.get('third')}"
+    if not io.get("third_equal") or io.get("third_same") is False:
+        return ("after the first parsed instance was changed in place (append / add / item assignment on its containers), "
+                "parsing the same encoded text again gives an instance that is not equal to the encoded one")
+    if io.get("inst_intact") is not True:
+        return "changing the parsed instance in place changed the encoded instance"
+    return None
+
+
+# ---- containers taken over as they are: bare list / dict, Any, List[list], Dict[str, list] ... ------------------------
+# JSON-faithful by definition when they hold JSON values (None bool int finite-float str list dict-with-str-keys).
+# Not in the Lean model (the model's types are all typed): these cases are judged by the specification only.
+RAW_KINDS = ["list", "dict", "any", "list_list", "dict_list", "list_dict", "opt_list", "opt_dict", "list_any", "dict_any",
+             "tuple_list", "str", "int", "list_int", "date"]
+RAW_NAMES = ["tags", "meta", "rows", "extra", "payload", "f0", "f1", "f2"]
+RAW_STRS = ["", "a", "b", "null", "[1, 2]", "{}", "2020-01-02", "1", "true", "é中\U0001F600", "line\nbreak\t\"q\"\\", " ", "Infinity"]
+
+
+def raw_pytype(kind):
+    import typing
+    from datetime import date as _date
+    return {"list": list, "dict": dict, "any": typing.Any, "list_list": typing.List[list], "dict_list": typing.Dict[str, list],
+            "list_dict": typing.List[dict], "opt_list": typing.Optional[list], "opt_dict": typing.Optional[dict],
+            "list_any": typing.List[typing.Any], "dict_any": typing.Dict[str, typing.Any], "tuple_list": typing.Tuple[list, dict],
+            "str": str, "int": int, "list_int": typing.List[int], "date": _date}[kind]
+
+
+def gen_json(rng, depth):
+    r = rng.random()
+    if depth <= 0 or r < 0.45:
+        k = rng.randrange(7)
+        if k == 0:
+            return None
+        if k == 1:
+            return rng.random() < 0.5
+        if k == 2:
+            return rng.choice([0, 1, -1, 2, 99, 2 ** 53 + 1, -10 ** 30, rng.randint(-1000, 1000)])
+        if k == 3:
+            return rng.choice([0.0, -0.0, 0.5, 1.0, -2.75, 1e300, 5e-324, 0.1, 123456.789])
+        return rng.choice(RAW_STRS)
+    if r < 0.75:
+        return [gen_json(rng, depth - 1) for _ in range(rng.choice([0, 1, 2, 2, 3]))]
+    return gen_json_dict(rng, depth)
+
+
+def gen_json_dict(rng, depth):
+    keys = rng.sample(["a", "b", "pages", "", "1", "Key", "ké", "x y", "null"], rng.choice([0, 1, 2, 2, 3]))
+    return {k: gen_json(rng, depth - 1) for k in keys}
+
+
+def gen_json_list(rng, depth, n=None):
+    return [gen_json(rng, depth - 1) for _ in range(rng.choice([0, 1, 2, 2, 3]) if n is None else n)]
+
+
+def gen_raw_value(rng, kind, depth=3):
+    if kind == "list":
+        return gen_json_list(rng, depth)
+    if kind == "dict":
+        return gen_json_dict(rng, depth)
+    if kind == "any":
+        return gen_json(rng, depth)
+    if kind == "list_list":
+        return [gen_json_list(rng, depth - 1) for _ in range(rng.choice([0, 1, 2, 3]))]
+    if kind == "dict_list":
+        return {k: gen_json_list(rng, depth - 1) for k in rng.sample(["a", "b", "pages", "Key"], rng.choice([0, 1, 2]))}
+    if kind == "list_dict":
+        return [gen_json_dict(rng, depth - 1) for _ in range(rng.choice([0, 1, 2]))]
+    if kind == "opt_list":
+        return None if rng.random() < 0.2 else gen_json_list(rng, depth)
+    if kind == "opt_dict":
+        return None if rng.random() < 0.2 else gen_json_dict(rng, depth)
+    if kind == "list_any":
+        return gen_json_list(rng, depth)
+    if kind == "dict_any":
+        return gen_json_dict(rng, depth)
+    if kind == "tuple_list":
+        return [gen_json_list(rng, depth - 1), gen_json_dict(rng, depth - 1)]          # carried as a list, built as a tuple
+    if kind == "str":
+        return rng.choice(RAW_STRS)
+    if kind == "int":
+        return rng.choice([0, -1, 7, 2 ** 53 + 1])
+    if kind == "list_int":
+        return [rng.randint(-5, 5) for _ in range(rng.choice([0, 1, 3]))]
+    if kind == "date":
+        return rng.choice(["2024-02-29", "1970-01-01", "9999-12-31"])                  # carried as ISO text
+    raise ValueError(kind)
+
+
+def gen_raw_case(rng):
+    n = rng.choice([1, 1, 2, 3, 4])
+    names = rng.sample(RAW_NAMES, n)
+    kinds = [rng.choice(RAW_KINDS[:11]) if i == 0 or rng.random() < 0.7 else rng.choice(RAW_KINDS) for i in range(n)]
+    return {"raw": True, "fields": [[nm, k, gen_raw_value(rng, k)] for nm, k in zip(names, kinds)],
+            "mode": rng.choice(["encoder", "encoder", "serializer"]), "cfg": FIXED}
+
+
+def raw_build(kind, v):
+    import copy
+    from datetime import date as _date
+    if kind == "tuple_list":
+        return (copy.deepcopy(v[0]), copy.deepcopy(v[1]))
+    if kind == "date":
+        return _date.fromisoformat(v)
+    return copy.deepcopy(v)
+
+
+def strict_repr(x):
+    """a value with the types of its parts (True is not 1 is not 1.0; -0.0 is not 0.0), dict items in sorted order"""
+    if isinstance(x, dict):
+        return ["dict", sorted([[strict_repr(k), strict_repr(v)] for k, v in dict.items(x)], key=repr)]
+    if isinstance(x, (list, tuple)):
+        return [type(x).__name__, [strict_repr(y) for y in x]]
+    return [type(x).__name__, repr(x)]
+
+
+def json_classes(v, depth=0):
+    if isinstance(v, list):
+        return {f"list{depth}" if v else "list-empty"} | {c for x in v for c in json_classes(x, depth + 1)}
+    if isinstance(v, dict):
+        return {f"dict{depth}" if v else "dict-empty"} | {c for x in v.values() for c in json_classes(x, depth + 1)}
+    return {type(v).__name__}
+
+
+def impl_raw(case):
+    from utype import Schema
+    from utype.utils import exceptions as exc
+    from utype.utils.encode import JSONEncoder, JSONSerializer
+    out = {"raw": True}
+    try:
+        World.serial += 1
+        ann = {n: raw_pytype(k) for n, k, _ in case["fields"]}
+        cls = type(f"R{World.serial}", (Schema,), {"__annotations__": ann, "__module__": __name__})
+        given = {n: raw_build(k, v) for n, k, v in case["fields"]}
+        inst = cls(**{n: raw_build(k, v) for n, k, v in case["fields"]})
+    except Exception as e:
+        return {"raw": True, "init": "error:" + type(e).__name__ + ":" + str(e)[:80]}
+    out["init"] = "ok"
+    if strict_repr(dict(inst)) != strict_repr(given):
+        out["state"] = "the instance does not hold the values it was built from"
+    try:
+        if case.get("mode") == "serializer":
+            raw = JSONSerializer().dumps(inst)
+            text = raw.decode("utf-8")
+        else:
+            raw = text = json.dumps(inst, cls=JSONEncoder)
+    except Exception as e:
+        out["enc"] = "error:" + type(e).__name__
+        return out
+    out["enc"] = "ok"
+    out["std"] = is_standard_json(text)
+    try:
+        back = cls.__from__(raw)
+    except exc.ParseError as e:
+        out["parse"] = "perr"
+        out["msg"] = str(e)[:120]
+        return out
+    except Exception as e:
+        out["parse"] = "escape:" + type(e).__name__
+        return out
+    out["parse"] = "ok"
+    out["equal"] = _eq(back, inst)
+    out["strict"] = strict_repr(dict(back)) == strict_repr(dict(inst))
+    out["strict_snap"] = True
+    reparse(cls, raw, inst, back, lambda x: strict_repr(dict(x)), out)
+    return out
+
+
 def impl(case):
     import utype  # noqa
     from utype.utils import exceptions as exc
     from utype.utils.encode import JSONEncoder, JSONSerializer
     if case.get("probe"):
         return impl_probe(case)
+    if case.get("raw"):
+        return impl_raw(case)
     w = World()
     t = case["ty"]
     out = {}
@@ -819,6 +1087,8 @@ def impl(case):
         out["back"] = w.desc(t, back)
     except Exception as e:
         out["back"] = "badtype:" + str(e)[:60]
+    if out["equal"]:
+        reparse(cls, raw, inst, back, lambda x: w.desc(t, x), out)
     return out
 
 
@@ -1908,7 +2178,10 @@ class C14(Check):
             "alias_from, per-field and class-wide case_insensitive, data_first_search None|True|False, Options(mode) with per-field mode, "
             "defaults / default_factory, required=False, no_output, no_input, output @property with 1-3 declared dependencies, max_depth "
             "2-4 with Optional['Self'] / List['Self'] chains up to (rarely beyond) the limit; 35 % of those instances mutated through "
-            "attribute / item assignment, update({}), update(**kw), |= (1-3 operations) before encoding.  Field types over int float str "
+            "attribute / item assignment, update({}), update(**kw), |= (1-3 operations) before encoding; 1/12 of the cases are classes with containers "
+            "taken over as they are (bare list / dict, Any, List[list], Dict[str, list], List[dict], Optional[list], List[Any], Tuple[list, dict]) "
+            "holding random JSON values (specification only, no Lean type); every text that parses back equal is parsed three times with in-place "
+            "changes of the first result in between (equal each time, nothing mutable shared).  Field types over int float str "
             "bool None bytes Decimal date datetime time timedelta UUID Enum (plain / int / str mixin) List Set Tuple[...] Tuple[T, ...] "
             "Dict[str|int, T] Optional[T] nested classes (plain or rich), depth <= 2 quick / 3 thorough; values: negative / positive / "
             "second- and microsecond-granular UTC offsets, negative and microsecond durations, timedelta.min/max, Decimals with 1-15 digits "
@@ -1936,7 +2209,9 @@ class C14(Check):
         depth = 3 if tier == "thorough" else 2
         # one-field cases (sharp replays) and multi-field cases
         for i in range(n):
-            if i % 12 == 11:
+            if i % 12 == 5:
+                out.append(gen_raw_case(rng))   # containers taken over as they are (bare list / dict, Any, List[list] ...)
+            elif i % 12 == 11:
                 out.append(gen_probe(rng))      # look-alike text into typed fields: model of the decoders vs the real ones
             elif i % 3 == 0:
                 t = gen_type(rng, depth - 1)
@@ -1949,6 +2224,9 @@ class C14(Check):
         return out
 
     def model_line(self, case):
+        if case.get("raw"):
+            # no Lean type for an untyped container: the driver gets the empty class, the case is counted as unmodelled
+            return {"cfg": FIXED, "ty": {"data": []}, "val": {"data": []}, "prims": prim_table({"data": []}, {"data": []})}
         if case.get("probe"):
             return {"cfg": case.get("cfg", FIXED), "ty": model_type(case["ty"]), "parse_tree": case["tree"], "prims": probe_prims(case["tree"])}
         val = strip_hidden(case["val"])
@@ -1956,6 +2234,10 @@ class C14(Check):
 
     # -- comparison model vs implementation ------------------------------------------------------
     def compare(self, case, io, mo):
+        if case.get("raw"):
+            self._unmodelled = getattr(self, "_unmodelled", 0) + 1
+            self._compared = getattr(self, "_compared", 0) + 1
+            return io.get("state")
         d = self._compare(case, io, mo)
         if isinstance(mo, dict) and (str(mo.get("enc", "")).startswith("unmodelled") or str(mo.get("parse", "")).startswith("unmodelled")):
             self._unmodelled = getattr(self, "_unmodelled", 0) + 1
@@ -2030,6 +2312,19 @@ class C14(Check):
     def spec(self, case, io, mo):
         if io.get("init") != "ok" or case.get("probe"):
             return None
+        if case.get("raw"):
+            # JSON values in containers taken over as they are: in the domain by construction
+            if io.get("enc") != "ok":
+                return f"encoding an in-domain instance raised {io.get('enc')}"
+            if not io.get("std"):
+                return "the encoder's output is not standard JSON (RFC 8259)"
+            if io.get("parse") != "ok":
+                return f"parsing the encoded text back failed: {io.get('parse')} {io.get('msg', '')}"
+            if not io.get("equal"):
+                return "the instance parsed back from its own encoding is not equal to the original"
+            if not io.get("strict"):
+                return "the instance parsed back from its own encoding holds a value of another type than the original (bool / int / float / str / None / list / dict)"
+            return reparse_spec(io)
         # the instance as it is (after any mutation through the public API)
         if not in_domain(case["ty"], io.get("state") or case["val"]):
             return None
@@ -2041,9 +2336,11 @@ class C14(Check):
             return f"parsing the encoded text back failed: {io.get('parse')}"
         if not io.get("equal"):
             return "the instance parsed back from its own encoding is not equal to the original"
-        return None
+        return reparse_spec(io)
 
     def classify(self, case, io, why):
+        if case.get("raw"):
+            return None
         # a violation falls under a known finding only if every field that fails on its own fails in that
         # finding's clause and is of that finding's kind
         ftys = field_types(case["ty"])
@@ -2065,6 +2362,12 @@ class C14(Check):
     def neighbours(self, case, rng):
         if case.get("probe"):
             return []
+        if case.get("raw"):
+            out = []
+            for n, k, v in case["fields"]:
+                out.append(dict(case, fields=[[n, k, v]]))
+                out += [dict(case, fields=[[n, k, gen_raw_value(rng, k, 2)]]) for _ in range(6)]
+            return out
         out = []
         t, v = case["ty"], case["val"]
         # each field alone, with its value and with fresh values of the same type
@@ -2083,6 +2386,8 @@ class C14(Check):
         return out
 
     def key(self, case, io):
+        if case.get("raw"):
+            return None if io.get("init") != "ok" else "raw|" + ",".join(sorted(k for _, k, _ in case["fields"])) + "|" + ",".join(sorted({c for _, _, v in case["fields"] for c in json_classes(v)}))
         if case.get("probe") or trivial(case["ty"]) or io.get("init") != "ok":
             return None
         cl = set()
@@ -2090,6 +2395,8 @@ class C14(Check):
         return shape(case["ty"]) + "|" + ",".join(sorted(cl))
 
     def distribution(self, case, io):
+        if case.get("raw"):
+            return "raw/" + case.get("mode", "encoder") + "/" + "+".join(sorted({k for _, k, _ in case["fields"]}))[:80]
         if case.get("probe"):
             return "probe/" + shape(case["ty"]["data"][0][1])
         if io.get("init") != "ok":
